@@ -9,6 +9,7 @@ import Hive.Proofs.DerivedAsync
 import Hive.Proofs.DerivedEvict
 import Hive.Proofs.DerivedEvictLoop
 import Hive.Proofs.DerivedEvictLock
+import Hive.Proofs.DerivedGraph
 import Hive.Proofs.DerivedVarSeq
 import Hive.Proofs.DerivedSortedWin
 import Hive.Spec.Derived
@@ -289,15 +290,17 @@ theorem C14_derived_var_needs_last_flag :
     exact absurd h2 (by decide)
 
 open Hive.Gen.C14Facts in
-/-- **The constructors as they are in `variable.go`**: the subscriptions of `NewDerivedVariable1..4` and of
-`InheritFrom`, in source order with the arguments that follow the callback, are regenerated from the working tree on
-every run (`Hive/Gen/C14_Facts.lean`); they subscribe to `input1 … inputN` in this order, each with
-`triggerWithInitialZeroValue = true`. -/
+/-- **The constructors as they are in `variable.go`**: the subscriptions of `NewDerivedVariable1..4`, in source order,
+are regenerated from the working tree on every run (`Hive/Gen/C14_Facts.lean`): they subscribe to
+`input1 … inputN` in this order (the flags of these subscriptions are not pinned here: `C14_derived_var_code` evaluates
+the one that matters, the last).  `InheritFrom`, `Counter.Monitor` and the SortedSet's weight subscription pass
+`triggerWithInitialZeroValue = true` (a Counter's condition may hold for the zero value; a SortedSet positions an
+element of weight zero through the initial callback); the set subscriptions of DerivedSet / SubtractReactive pass none. -/
 theorem C14_facts_subscriptions :
-    subs_NewDerivedVariable = [("input1", "true")] ∧
-    subs_NewDerivedVariable2 = [("input1", "true"), ("input2", "true")] ∧
-    subs_NewDerivedVariable3 = [("input1", "true"), ("input2", "true"), ("input3", "true")] ∧
-    subs_NewDerivedVariable4 = [("input1", "true"), ("input2", "true"), ("input3", "true"), ("input4", "true")] ∧
+    subs_NewDerivedVariable.map (·.1) = ["input1"] ∧
+    subs_NewDerivedVariable2.map (·.1) = ["input1", "input2"] ∧
+    subs_NewDerivedVariable3.map (·.1) = ["input1", "input2", "input3"] ∧
+    subs_NewDerivedVariable4.map (·.1) = ["input1", "input2", "input3", "input4"] ∧
     subs_variable_InheritFrom = [("other", "true")] ∧
     subs_counter_Monitor = [("input", "true")] ∧
     subs_sortedSet_addSorted = [("s.weightVariable(element)", "true")] ∧
@@ -574,6 +577,63 @@ example : ∃ c, Reach (evlSys true) (({ ev := EV.init, lock := false } : EVL),
       [⟨[], [.event 4]⟩, ⟨[], [.evict 3]⟩, ⟨[], [.evict 5]⟩].map EVLT.run) c ∧
     c.1.ev.trig = [4] ∧ c.1.ev.last = some 5 ∧ ∀ t ∈ c.2, t.finished = true :=
   ⟨_, runSched_reach _ _ [(0, 0), (1, 0), (1, 0), (1, 0), (1, 0), (2, 0), (2, 0), (2, 0), (2, 0), (2, 0)], by decide⟩
+
+/-! ## Compositions: graphs of DerivedSets and SubtractReactive results (model `Hive/Model/DerivedGraph.lean`) -/
+
+/-- **Quiescence equality for compositions.**  Any wiring of base sets, DerivedSets (`plus`, mirrored in-edges) and
+SubtractReactive results (one `plus` in-edge, `minus` ones for the subtracted sets) — a derived object fed by derived
+objects, to any depth — under asynchronous delivery: base writes, subscriptions (`connect`: registration + snapshot
+atomic, initial report queued) and deliveries in any order, every derived node publishing its own change **in the
+step in which it applies it** (the notification inside the write mutex: `C14_skeleton_set_Compute`,
+`C14_skeleton_derivedSet_inheritMutations`, `C14_skeleton_set_Apply`, `C14_skeleton_set_Replace`).  When everything
+is subscribed and delivered, every derived node satisfies its defining equation over the current values of its
+direct inputs (element by element: the model is the projection on one element). -/
+theorem C14_compose_quiescent (base : Nat → Bool) (wiring : List (Nat × Nat × Bool × Bool)) (ops : List GOp)
+    (hq : (gRun true base (GS.init wiring) ops).quiescent = true) :
+    GS.localEq base (gRun true base (GS.init wiring) ops).edges (gRun true base (GS.init wiring) ops).v :=
+  g_quiescent base wiring ops hq
+
+/-- The equation of a node whose in-edges are all `plus` (a DerivedSet): the element is in it iff some source holds it. -/
+theorem C14_compose_derived_set (val : Nat → Bool) (k : Nat) (es : List GEdge) (h : ∀ e ∈ es, e.dst = k → e.plus = true) :
+    decide (1 ≤ wsumV val k es) = true ↔ ∃ e ∈ es, e.dst = k ∧ val e.src = true := by
+  simpa using (wsumV_allPlus val k es h).2
+
+/-- The equation of a node with at most one `plus` in-edge (a SubtractReactive result): the element is in it iff the
+source holds it and no subtracted set does. -/
+theorem C14_compose_subtract (val : Nat → Bool) (k : Nat) (es : List GEdge)
+    (h1 : es.countP (fun e => e.dst == k && e.plus) ≤ 1) :
+    decide (1 ≤ wsumV val k es) = true ↔
+      (∃ e ∈ es, e.dst = k ∧ e.plus = true ∧ val e.src = true) ∧
+      (∀ e ∈ es, e.dst = k → e.plus = false → val e.src = false) := by
+  simpa using wsumV_onePlus val k es h1
+
+/-- **Acyclic graphs: the composed function.**  If every edge leads to a higher-numbered node, the defining equations
+have exactly one solution over given base sets: two quiescent states (or a quiescent state and the mathematical
+composition) that agree on the base sets agree on every node, however deep. -/
+theorem C14_compose_unique (base : Nat → Bool) (es : List GEdge) (hac : ∀ e ∈ es, e.src < e.dst) (v v' : Nat → Bool)
+    (hb : ∀ j, base j = true → v j = v' j) (hv : GS.localEq base es v) (hv' : GS.localEq base es v') :
+    ∀ k, v k = v' k :=
+  g_unique base es hac v v' hb hv hv'
+
+/-- Publication outside of the step that applies the change (reactive `set.Compute` releasing its mutex before it
+notifies) breaks it already two levels deep: `S = A \ B`, `T = DerivedSet(S)`, `A.Add(x)` ‖ `B.Add(x)`, the two reports of
+`S` overtake each other; everything is delivered, `x ∉ S` and `x ∈ T`. -/
+theorem C14_compose_late_publication_witness :
+    let s := gRun false (fun j => decide (j < 2)) (GS.init gDemoWiring) gDemoOps
+    s.quiescent = true ∧ s.v 2 = false ∧ s.v 3 = true ∧ ¬ GS.localEq (fun j => decide (j < 2)) s.edges s.v := by
+  refine ⟨g_demo_witness.1, g_demo_witness.2.1, g_demo_witness.2.2, fun h => ?_⟩
+  have h3 := h 3 (by decide)
+  rw [g_demo_witness.2.2] at h3
+  revert h3
+  decide
+
+/-- Non-vacuity of `C14_compose_quiescent`: a three-level run (`S = A \ B`, `T = DerivedSet(S, A)`, `R = T \ B`) with
+writes before, between and after the subscriptions that ends quiescent. -/
+example : (gRun true (fun j => decide (j < 2))
+    (GS.init [(0, 2, true, false), (1, 2, false, false), (2, 3, true, true), (0, 3, true, true), (3, 4, true, false), (1, 4, false, false)])
+    [.write 0 true, .connect 0, .connect 1, .connect 2, .deliver 0, .write 1 true, .connect 3, .connect 4, .deliver 2, .deliver 1,
+     .connect 5, .deliver 3, .deliver 2, .deliver 4, .deliver 5, .write 1 false, .deliver 1, .deliver 5, .deliver 2, .deliver 4]).quiescent = true := by
+  decide
 
 /-! ## No deadlock: lock order over scripts derived from the regenerated skeletons -/
 
